@@ -47,3 +47,31 @@ package channeldb
 //@   props C06 C02
 //@   site call putOpenChannel: assert retn(fetchOpenChannel, 1) == nil && arg(1) == retn(fetchOpenChannel, 0) && arg(0) == retn(fetchChanBucketRw, 0)
 //@   site call SetChannelStatusForStore: assert arg(0) == retn(fetchOpenChannel, 0)
+//@
+//@ // ---- C14: the height hint cache stores the given height under the key of each given request and
+//@ // ---- reads it back from the key of the queried request
+//@ func (c *HeightHintCache) CommitSpendHint$1
+//@   props C14
+//@   loop * havoc
+//@   site call WriteElement: assert dyndata(arg(1)) == height && arg(0) == addr(hint)
+//@   site call Put: assert arg(key) == retn(spendHintKey, 0) && retn(spendHintKey, 1) == nil && ret(WriteElement) == nil && arg(value) == ret(Bytes)
+//@   site call Bytes: assert arg(0) == addr(hint)
+//@
+//@ func (c *HeightHintCache) CommitConfirmHint$1
+//@   props C14
+//@   loop * havoc
+//@   site call WriteElement: assert dyndata(arg(1)) == height && arg(0) == addr(hint)
+//@   site call Put: assert arg(key) == retn(confHintKey, 0) && retn(confHintKey, 1) == nil && ret(WriteElement) == nil && arg(value) == ret(Bytes)
+//@   site call Bytes: assert arg(0) == addr(hint)
+//@
+//@ func (c *HeightHintCache) QuerySpendHint$1
+//@   props C14
+//@   site call Get: assert arg(key) == retn(spendHintKey, 0) && retn(spendHintKey, 1) == nil
+//@   site call ReadElement: assert ret(Get) != nil && called(NewReader)
+//@   site call NewReader: assert arg(0) == ret(Get)
+//@
+//@ func (c *HeightHintCache) QueryConfirmHint$1
+//@   props C14
+//@   site call Get: assert arg(key) == retn(confHintKey, 0) && retn(confHintKey, 1) == nil
+//@   site call ReadElement: assert ret(Get) != nil && called(NewReader)
+//@   site call NewReader: assert arg(0) == ret(Get)
